@@ -453,6 +453,30 @@ def bounded_writers(ctx, b):
             except parsers.FormatError as ex:
                 ok, detail = False, {"writer": name, "spans": spans, "format_error": str(ex)}
             b.case((name, tuple(spans)), ok, detail, sample={"writer": name, "spans": spans, "output": out[:300]})
+    # captions with identical spans that are NOT neighbours stay separate cues, in order (only runs are merged, and only
+    # by the writers that merge at all): 3-5 captions, the first span repeated after one or more others
+    for i in range(12 if not ctx.thorough else 120):
+        k = rng.choice([3, 4, 5])
+        pts = sorted(rng.randrange(0, 3600 * US) // 1000 * 1000 for _ in range(2 * k))
+        spans = [(pts[2 * j], pts[2 * j + 1]) for j in range(k)]
+        spans[rng.randrange(2, k)] = spans[0]
+        cs = CaptionSet({"en-US": CaptionList([Caption(s, e, [T(f"cue {j}")]) for j, (s, e) in enumerate(spans)])})
+        for name in ("srt", "webvtt", "dfxp", "legacy", "single", "microdvd"):
+            def apart(name=name, spans=spans, cs=cs):
+                out = writers[name].write(cs)
+                if name == "srt":
+                    got = [(cu["start"], cu["end"], cu["lines"]) for cu in parsers.parse_srt(out)]
+                elif name == "webvtt":
+                    got = [(cu["start"], cu["end"], cu["lines"]) for cu in parsers.parse_webvtt(out)]
+                elif name == "microdvd":
+                    got = [(cu["start_frame"] * 40000, cu["end_frame"] * 40000, cu["lines"]) for cu in parsers.parse_microdvd(out)]
+                    return [(s_ // 40000 * 40000, e_ // 40000 * 40000) for s_, e_ in spans] == [(g[0], g[1]) for g in got] and \
+                        [g[2] for g in got] == [[f"cue {j}"] for j in range(len(spans))], {"writer": name, "spans": spans, "parsed": got}
+                else:
+                    got = [(cu["start"], cu["end"], cu["lines"]) for cu in parsers.parse_dfxp(out)["cues"].get("en-US", [])]
+                want = [(s_, e_, [f"cue {j}"]) for j, (s_, e_) in enumerate(spans)]
+                return got == want, {"writer": name, "spans": spans, "parsed": got}
+            b.guard(("apart", i, name), apart, sample={"writer": name, "spans": spans})
 
 
 def run(ctx):
